@@ -1,2 +1,130 @@
+(* props/C52.v — C52: the head's reported counters match its contents.
+
+   Full statement (property text): after ANY history of appends (floats, histograms, staleness
+   markers), commits, rollbacks, head truncations, stale-series and selected-series eviction,
+   deletions and restarts,
+        st_c (run ops) = recount (run ops)
+   i.e. numSeries, numStaleSeries, numNativeHistogramSeries, numNativeHistogramBuckets,
+   prometheus_tsdb_head_chunks and prometheus_tsdb_head_active_appenders equal the values
+   recomputed from the series of the head; and the active-appender count is zero once every
+   appender has committed or rolled back.
+
+   The full statement is FALSE of the faithful model (and of the code: every counterexample below
+   is replayed on the real tsdb.DB by harness/cmd/h_c52, corpus cases 3-6 and 12): see the five
+   [C52_refuted_*] theorems.  What is proved for all histories is the statement restricted to
+   histories whose oracles are well formed ([wf_run], model/HeadStats.v): no head chunk came out
+   of a chunk snapshot, none was dropped by the WAL replay, every out-of-order head chunk was
+   flushed into exactly one m-mapped chunk, no append changed the number of bucket entries of the
+   histogram it was handed, and no sample was committed into a series that had already been
+   garbage collected.  Each excluded event is one of the refuted cases.  The active-appender part
+   holds without any restriction. *)
 From Coq Require Import List ZArith Bool.
 From Verif Require Import model.HeadStats proof.HeadStatsProofs.
+Import ListNotations.
+Open Scope Z_scope.
+
+(* ------------------------------------------------------------------ what holds *)
+Theorem C52_counters_eq_recount_partial : forall cap ops,
+  wf_run cap state0 ops = true ->
+  st_c (run cap ops) = recount (run cap ops).
+Proof. intros cap ops H. apply inv_recount. unfold run. apply run_inv; [exact H | exact inv0]. Qed.
+
+(* ... after every step of the history, not only at its end *)
+Theorem C52_counters_eq_recount_every_step_partial : forall cap ops,
+  wf_run cap state0 ops = true ->
+  Forall (fun st => st_c st = recount st) (trace cap state0 ops).
+Proof.
+  intros cap ops H. pose proof (trace_inv cap ops state0 H inv0) as T.
+  eapply Forall_impl; [|exact T]. intros st HI. apply inv_recount. exact HI.
+Qed.
+
+(* the active-appender gauge equals the number of appenders that were opened and neither committed
+   nor rolled back — for every history, whatever the oracles say *)
+Theorem C52_active_appenders : forall cap ops,
+  c_active (st_c (run cap ops)) = zlen (st_open (run cap ops)).
+Proof. intros. unfold run. apply run_active. reflexivity. Qed.
+
+Theorem C52_appenders_zero : forall cap ops,
+  st_open (run cap ops) = [] -> c_active (st_c (run cap ops)) = 0.
+Proof. intros cap ops H. rewrite C52_active_appenders, H. reflexivity. Qed.
+
+(* non-vacuity: a well-formed history with floats, a histogram, a converted staleness marker, an
+   out-of-order sample, m-mapping, a truncation that deletes a series, an eviction and a restart;
+   two appenders are open at the same time; the final counters are not all zero *)
+Definition ex_ops : list op :=
+  [ OOpen 0; OAppend 0 (Some 1) (Some 1); OAppend 0 (Some 2) (Some 2); OAppend 0 (Some 3) (Some 3);
+    OOpen 1;
+    OCommit 0 [1; 2; 3] [LIn 1 1000 false false 0 0 true; LIn 2 1000 true false 3 3 true; LIn 3 1000 false false 0 0 true];
+    OAppend 1 None (Some 2); OAppend 1 None (Some 1); OAppend 1 None (Some 3);
+    OCommit 1 [2; 1; 3] [LIn 2 1010 true true 0 0 false; LIn 1 1050 false false 0 0 true; LOoo 3 1 false];
+    OMmap;
+    OTrunc true 1020 [] [];
+    OEvict true [1; 2; 3] 1050;
+    OOpen 2; OAppend 2 (Some 4) (Some 4); ORollback 2 [4];
+    ORestart [mkS 1 [1000] [1050] 0 None false (LF false) false 0; mkS 3 [] [1000] 1 None true (LF false) false 0] 0;
+    OTrunc true 1040 [(3, 1)] [(3, 1)] ].
+
+Example C52_nonvacuous :
+  wf_run 32 state0 ex_ops = true /\
+  st_c (run 32 ex_ops) = mkC 1 0 0 0 1 0 /\
+  st_open (run 32 ex_ops) = [] /\
+  (* an intermediate state with a stale native-histogram series and two open appenders *)
+  st_c (run 32 (firstn 10 ex_ops)) = mkC 3 1 1 0 5 0 /\
+  st_c (run 32 (firstn 5 ex_ops)) = mkC 3 0 0 0 0 2.
+Proof. vm_compute. repeat split; reflexivity. Qed.
+
+(* ------------------------------------------------------------------ what does not hold *)
+(* 1. loadChunkSnapshot restores head chunks without chunks.Inc(): after the restart the gauge is
+      short by one per restored head chunk and turns negative at the next GC. *)
+Theorem C52_refuted_snapshot_head_chunks_uncounted :
+  exists ops, st_c (run 32 ops) <> recount (run 32 ops) /\
+              c_chunks (st_c (run 32 (ops ++ [OTrunc true 1300 [] []]))) = -1.
+Proof.
+  exists [OOpen 0; OAppend 0 (Some 1) (Some 1); OCommit 0 [1] [LIn 1 1000 false false 0 0 true];
+          ORestart [mkS 1 [] [1000] 0 None false (LF false) false 1] 0].
+  split; [vm_compute; discriminate | vm_compute; reflexivity].
+Qed.
+
+(* 2. resetSeriesWithMMappedChunks drops the head chunk the replay has just created (and counted)
+      when it meets a second series record for the same labels. *)
+Theorem C52_refuted_wal_replay_duplicate_series_record :
+  exists ops, st_c (run 32 ops) <> recount (run 32 ops).
+Proof.
+  exists [OOpen 0; OAppend 0 (Some 1) (Some 1); OCommit 0 [1] [LIn 1 978 false false 0 0 true];
+          OTrunc true 998 [] [];
+          OOpen 1; OAppend 1 (Some 2) (Some 2); OCommit 1 [2] [LIn 2 1009 false false 0 0 true];
+          ORestart [mkS 1 [] [1009] 0 None false (LF false) false 0] 1].
+  vm_compute; discriminate.
+Qed.
+
+(* 3. an out-of-order head chunk that is encoded into several chunks when it is m-mapped was
+      counted once. *)
+Theorem C52_refuted_ooo_head_chunk_flushed_into_several_chunks :
+  exists ops, st_c (run 4 ops) <> recount (run 4 ops).
+Proof.
+  exists [OOpen 0; OAppend 0 (Some 1) (Some 1); OCommit 0 [1] [LIn 1 1300 false false 0 0 true];
+          OOpen 1; OAppend 1 None (Some 1);
+          OCommit 1 [1] [LOoo 1 1 false; LOoo 1 1 false; LOoo 1 1 false; LOoo 1 1 false; LOoo 1 4 false]].
+  vm_compute; discriminate.
+Qed.
+
+(* 4. commitHistograms reads the number of bucket entries before the append; the append of a gauge
+      histogram can add entries to the very histogram that becomes lastHistogramValue. *)
+Theorem C52_refuted_histogram_buckets_changed_by_append :
+  exists ops, st_c (run 32 ops) <> recount (run 32 ops).
+Proof.
+  exists [OOpen 0; OAppend 0 (Some 1) (Some 1); OCommit 0 [1] [LIn 1 1000 true false 4 4 true];
+          OOpen 1; OAppend 1 None (Some 1); OCommit 1 [1] [LIn 1 1010 true false 2 4 false]].
+  vm_compute; discriminate.
+Qed.
+
+(* 5. pendingCommit is one bit: a second appender's commit clears it, the series is garbage
+      collected, and the first appender then commits into a memSeries nobody can reach. *)
+Theorem C52_refuted_commit_into_garbage_collected_series :
+  exists ops, st_c (run 32 ops) <> recount (run 32 ops) /\ st_series (run 32 ops) = [] /\ st_open (run 32 ops) = [].
+Proof.
+  exists [OOpen 0; OOpen 1; OAppend 0 (Some 1) (Some 1); OAppend 1 None (Some 1);
+          OCommit 1 [1] [LIn 1 1001 false false 0 0 true]; OTrunc true 2000 [] [];
+          OCommit 0 [1] [LIn 1 1000 false false 0 0 true]].
+  vm_compute. repeat split; discriminate.
+Qed.
